@@ -83,6 +83,11 @@ type finding struct {
 	TreeContains []string `json:"tree_contains,omitempty"`
 	// WhereContains: the violation's location must contain each substring.
 	WhereContains []string `json:"where_contains,omitempty"`
+	// OnlyCombined: the rules of this entry never explain a violation on
+	// their own; they are applied only together with those of another
+	// applicable entry (a recorded difference that shows up incidentally in
+	// the texts reported with another recorded finding).
+	OnlyCombined bool `json:"only_combined,omitempty"`
 	// TreeContainsAny: at least one of these occurs in the tree description.
 	TreeContainsAny []string `json:"tree_contains_any,omitempty"`
 	// ObservedContains: the observed value must contain each substring.
@@ -180,6 +185,10 @@ func matchKnown(known []finding, v props.Violation, tree string) *finding {
 	for i := range known {
 		k := &known[i]
 		if !k.applies(v, tree) {
+			continue
+		}
+		if k.OnlyCombined {
+			e, o = k.normalize(e, o)
 			continue
 		}
 		if len(k.Normalize) == 0 && len(k.NormalizeRegex) == 0 {
